@@ -210,22 +210,9 @@ def make_connector(path):
     from experimaestro.connectors.local import LocalConnector
     from experimaestro.locking import Lock
 
-    class VIPLock(Lock):
-        def __init__(self, path, max_delay=-1):
-            super().__init__()
-            self.path = str(path)
-
-        def __enter__(self):
-            V.ip_acquire(self.path)
-            return self
-
-        def __exit__(self, *a):
-            V.ip_release(self.path)
-
     class VConnector(LocalConnector):
-        def lock(self, path, max_delay=-1):
-            return VIPLock(path, max_delay)
-
+        # lock(): the tree's own LocalConnector.lock / InterProcessLock (a fasteners.InterProcessLock whose acquire / release are
+        # virtual, see install())
         def processbuilder(self):
             return VProcessBuilder()
 
@@ -393,6 +380,23 @@ def install():
     sdeps.threading = shim
     xtokens.threading = shim
     xtokens.fasteners = V.VFasteners()
+    # fasteners.InterProcessLock itself becomes virtual (lock table of vworld): the scheduler-side lock class of the tree
+    # (connectors.local.InterProcessLock, a subclass) then runs its own __enter__ / __exit__ on top of it
+    import fasteners as _fasteners
+
+    # (fasteners keeps the path as bytes)
+    def _fl_acquire(self, blocking=True, delay=0.01, max_delay=0.1, timeout=None):
+        ok = V.ip_acquire(os.fsdecode(self.path), blocking=blocking)
+        self.acquired = bool(ok)
+        return ok
+
+    def _fl_release(self):
+        V.ip_release(os.fsdecode(self.path))
+        self.acquired = False
+
+    _fasteners.InterProcessLock.acquire = _fl_acquire
+    _fasteners.InterProcessLock.release = _fl_release
+    _fasteners.InterProcessLock.exists = lambda self: os.path.exists(os.fsdecode(self.path))
     xtokens.ipcom = lambda: V.VIPCom()
     xconn.Process.HANDLERS = {"virtual": VProcess}
     sbase.SIGNAL_HANDLER.add = lambda xp: None
